@@ -1,6 +1,8 @@
 package tensor
 
 import (
+	"unsafe"
+
 	"github.com/pkg/errors"
 )
 
@@ -40,6 +42,7 @@ func (t *Dense) T(axes ...int) (err error) {
 	t.old = t.AP
 	t.transposeWith = axes
 	t.AP = transform
+	verifHook("MetaWrite:T", 0, uintptr(unsafe.Pointer(t)))
 	return nil
 }
 
@@ -59,6 +62,7 @@ func (t *Dense) UT() {
 		t.AP = t.old
 		t.old.zeroOnly()
 		t.transposeWith = nil
+		verifHook("MetaWrite:UT", 0, uintptr(unsafe.Pointer(t)))
 	}
 }
 
